@@ -52,6 +52,10 @@ def gen_cases(ctx):
     rep = 0
     while rep < reps:
         lengths = list(range(0, max_len + 1))
+        if rep == 0:
+            # beyond the exhaustive 0..257 sweep: long keys (unrolled / vectorised block loops start somewhere)
+            lengths += [258, 300, 511, 512, 513, 519, 520, 1000, 1023, 1024, 1025, 2048, 4095, 4096, 4097, 8191, 8200, 65536 + 3]
+            lengths += [int(x) for x in rng.integers(258, 5000, 12)]
         if ctx.thorough and rep % 4 == 3:
             lengths = [int(x) for x in rng.integers(258, 4097, 40)]
         for n in lengths:
@@ -128,6 +132,52 @@ def run_kernel_slices(case, ctx, mon):
     mon.count("kernel_slice_windows", len(wins))
     mon.seen("kernel_slice_len_class", "multi-block" if n >= 16 else ("one-block" if n >= 8 else "tail-only"))
     mon.nontrivial(len(wins) > 1)
+
+
+_VIEW_FNS = None
+
+
+def view_fns():
+    """Harness-side jitted wrappers that call the public hashes on a view made inside jitted code (buf[i:j])."""
+    global _VIEW_FNS
+    if _VIEW_FNS is None:
+        import numba
+
+        s = sk()
+        f64, f32, mm3 = s.hashes.fasthash64, s.hashes.fasthash32, s.hashes.murmur3
+
+        @numba.njit
+        def v64(buf, i, j, seed):
+            return f64(buf[i:j], seed)
+
+        @numba.njit
+        def v32(buf, i, j, seed):
+            return f32(buf[i:j], seed)
+
+        @numba.njit
+        def vmm(buf, i, j, seed):
+            return mm3(buf[i:j], seed)
+
+        _VIEW_FNS = (v64, v32, vmm)
+    return _VIEW_FNS
+
+
+def run_kernel_views(case, ctx, mon):
+    """All three public hashes called from jitted code on zero-copy views of a larger buffer (every start alignment, the
+    byte after the view is never NUL): the result must be that of the same bytes as an ordinary bytes object."""
+    v64, v32, vmm = view_fns()
+    buf = unhx(case["buf"])
+    n = len(buf)
+    bad = 0
+    for (i, j) in case["views"]:
+        b = buf[i:j]
+        s64, s32 = case["seed64"], case["seed32"]
+        g = (int(v64(buf, i, j, np.uint64(s64))), int(v32(buf, i, j, np.uint64(s64))), int(vmm(buf, i, j, np.uint32(s32))))
+        w = (hashes_ref.fasthash64(b, s64), hashes_ref.fasthash32(b, s64), hashes_ref.murmur3_32(b, s32))
+        for name, gg, ww in zip(("fasthash64", "fasthash32", "murmur3"), g, w):
+            mon.check(gg == ww, f"{name}-on-jitted-view==reference", view=[i, j], length=j - i, got=gg, want=ww, seed=s64 if name != "murmur3" else s32)
+    mon.count("kernel_views", len(case["views"]))
+    mon.nontrivial(True)
 
 
 def fixed_vectors(ctx, mon):
@@ -241,11 +291,20 @@ def run(ctx, mon):
         ks.append({"kernel_slices": True, "key": hx(rand_bytes(rng, ln, int(rng.integers(0, 5)))), "ngram": int(rng.integers(1, min(ln, 48) + 1)),
                    "seed": SEEDS64[i % len(SEEDS64)]})
     run_cases(ctx, mon, ks, run_kernel_slices, time_bound=False)
+    kv = []
+    for i in range(30 if ctx.quick else 200):
+        n = int(rng.integers(40, 120))
+        buf = bytes(rng.integers(1, 256, n, dtype=np.uint8))  # no NUL bytes: an over-read past a view is never hidden by a zero
+        views = [(int(a), int(min(n - 1, a + ln))) for a in range(0, 17) for ln in (0, 1, 2, 3, 4, 5, 7, 8, 9, 15, 16, 17, 24, 31)]
+        kv.append({"kernel_views": True, "buf": hx(buf), "views": views, "seed64": SEEDS64[i % len(SEEDS64)], "seed32": SEEDS32[i % len(SEEDS32)]})
+    run_cases(ctx, mon, kv, run_kernel_views, time_bound=False)
     run_cases(ctx, mon, gen_cases(ctx), run_case)
 
 
 def replay(case, ctx, mon):
-    if "kernel_slices" in case:
+    if "kernel_views" in case:
+        run_kernel_views(case, ctx, mon)
+    elif "kernel_slices" in case:
         run_kernel_slices(case, ctx, mon)
     elif "inputs" in case:
         run_case(case, ctx, mon)
@@ -262,4 +321,5 @@ def floors(mon, ctx):
     mon.floor("inputs", mon.counters["inputs"], 2000)
     mon.floor("second interpreter runs", mon.counters["second_interpreter_runs"], 2)
     mon.floor("in-kernel slice windows", mon.counters["kernel_slice_windows"], 1000)
+    mon.floor("hashes of jitted views", mon.counters["kernel_views"], 1000)
     mon.floor("in-kernel slice length classes", len(mon.classes["kernel_slice_len_class"]), 3)
